@@ -556,6 +556,9 @@ void ts_tree_cursor_current_status(
         alias_sequence[structural_child_index] :            \
         ts_subtree_symbol(subtree))
 
+    // Later siblings found so far lie inside the hidden node visited now.
+    bool has_later_siblings_inside_entry = *has_later_siblings;
+
     // Stop walking up when a visible ancestor is found.
     TSSymbol entry_symbol = subtree_symbol(
       *entry->subtree,
@@ -622,6 +625,11 @@ void ts_tree_cursor_current_status(
         for (const TSFieldMapEntry *map = field_map; map < field_map_end; map++) {
           if (!map->inherited && map->child_index == entry->structural_child_index) {
             *field_id = map->field_id;
+            // A field on a hidden node applies to every node inside it, so the
+            // current node's later siblings in there have the same field.
+            if (has_later_siblings_inside_entry) {
+              *can_have_later_siblings_with_this_field = true;
+            }
             break;
           }
         }
